@@ -10,14 +10,18 @@
 
    The faithful model falsifies the unrestricted statement (see the `_refuted` theorems, each replayed on the
    implementation and recorded in known_findings.d/C14.json); the round-trip theorems therefore carry the decidable
-   hypotheses `bb_prog_ok` / `xir_prog_ok` (C14/Proofs.v), which exclude exactly: daggered gates, Fouriergate and
-   meta operations, symbolic gate parameters other than measured-only expressions (Blackbird) / any symbolic or
-   string gate parameter (XIR, non-TDM), options without a target (Blackbird) / a target (XIR, non-TDM), TDM
-   programs with several bands or a shift (Blackbird) / with cutoff_dim, shift, numeric homodyne angles or select
-   (XIR), free-parameter names that start with q, and unused trailing modes (XIR). *)
+   hypotheses `bb_prog_ok` / `xir_prog_ok` (C14/Proofs.v).
+   XIR (after the fixes 7f2422a, 22aac6e, 4f17b2d, 6d1a8e2): daggered gates, target, shots, cutoff_dim (plain and TDM),
+   numeric / symbolic homodyne angles and select in TDM programs ARE covered by C14_xir_roundtrip; excluded remain
+   Fouriergate and meta operations, symbolic or string gate parameters (non-TDM; in TDM anything but a bare loop
+   variable), a TDM shift, free-parameter names starting with q, unused trailing modes.
+   Blackbird: excluded are daggered gates (no syntax), Fouriergate / meta operations, symbolic gate parameters other
+   than measured-only expressions or bare loop variables, options without a target, TDM programs with several
+   bands or a shift, free-parameter names starting with q; C14_bb_roundtrip_iff shows these exclusions are exactly
+   the programs on which the current Blackbird round trip is not the identity. *)
 From Coq Require Import List ZArith Bool.
 Import ListNotations.
-From SFV Require Import C14.Model C14.Proofs C14.Refuted.
+From SFV Require Import C14.Model C14.Proofs C14.Refuted C14.Converse.
 
 Theorem C14_bb_roundtrip : forall p : prog, bb_prog_ok p = true -> bb_roundtrip p = Ok p.
 Proof. exact bb_roundtrip_ok. Qed.
@@ -26,6 +30,16 @@ Print Assumptions C14_bb_roundtrip.
 Theorem C14_xir_roundtrip : forall p : prog, xir_prog_ok p = true -> xir_roundtrip p = Ok p.
 Proof. exact xir_roundtrip_ok. Qed.
 Print Assumptions C14_xir_roundtrip.
+
+(* the Blackbird hypotheses are also necessary: on well-formed programs (parameters are values a Program can hold;
+   a Fouriergate carries its parameter) the current object-level round trip is the identity exactly on bb_prog_ok *)
+Theorem C14_bb_roundtrip_iff :
+  forall p : prog, wf_prog p = true -> (bb_roundtrip p = Ok p <-> bb_prog_ok p = true).
+Proof. exact bb_roundtrip_iff. Qed.
+Print Assumptions C14_bb_roundtrip_iff.
+
+Example C14_wf_inhabited : wf_prog ex_bb = true /\ wf_prog ex_bb_tdm = true /\ wf_prog w_dagger = true /\ wf_prog w_fourier = true.
+Proof. vm_compute. repeat split. Qed.
 
 (* the hypotheses are inhabited by non-trivial programs (select, dark counts, measured expressions, arrays, options, TDM) *)
 Example C14_bb_hyp_inhabited : bb_prog_ok ex_bb = true /\ bb_prog_ok ex_bb_tdm = true.
@@ -40,15 +54,9 @@ Theorem C14_bb_dagger_never_survives :
 Proof. exact bb_dagger_never_survives. Qed.
 Print Assumptions C14_bb_dagger_never_survives.
 
-Theorem C14_xir_dagger_never_survives :
-  forall p p', xir_roundtrip p = Ok p' -> forall c, In c (pcirc p') -> dag c = false.
-Proof. exact xir_dagger_never_survives. Qed.
-Print Assumptions C14_xir_dagger_never_survives.
 
-Theorem C14_xir_target_never_survives :
-  forall p p', xir_roundtrip p = Ok p' -> ptdm p = None -> ptarget p' = None.
-Proof. exact xir_target_never_survives. Qed.
-Print Assumptions C14_xir_target_never_survives.
+
+
 
 Theorem C14_bb_options_need_target :
   forall p p', bb_roundtrip p = Ok p' -> ptarget p = None -> pshots p' = None /\ pcutoff p' = None.
@@ -60,23 +68,23 @@ Theorem C14_bb_tdm_N_collapses :
 Proof. exact bb_tdm_N_collapses. Qed.
 Print Assumptions C14_bb_tdm_N_collapses.
 
-Theorem C14_xir_tdm_cutoff_shift_never_survive :
-  forall p p', xir_roundtrip p = Ok p' -> ptdm p <> None ->
-               pcutoff p' = None /\ (forall t', ptdm p' = Some t' -> tshift t' = None).
-Proof. exact xir_tdm_cutoff_never_survives. Qed.
-Print Assumptions C14_xir_tdm_cutoff_shift_never_survive.
+
+
+Theorem C14_xir_tdm_shift_never_survives :
+  forall p p', xir_roundtrip p = Ok p' -> forall t', ptdm p' = Some t' -> tshift t' = None.
+Proof. exact xir_tdm_shift_never_survives. Qed.
+Print Assumptions C14_xir_tdm_shift_never_survives.
 
 (* ---- refutations of the unrestricted round trip: concrete witnesses (known findings) *)
 
-Theorem C14_dagger_refuted :
-  exists p p', bb_roundtrip p = Ok p' /\ xir_roundtrip p = Ok p' /\ p' <> p.
-Proof. exact dagger_refuted_stmt. Qed.
-Print Assumptions C14_dagger_refuted.
+Theorem C14_bb_dagger_refuted :
+  exists p p', bb_roundtrip p = Ok p' /\ xir_roundtrip p = Ok p /\ p' <> p.
+Proof. exact bb_dagger_refuted_stmt. Qed.
+Print Assumptions C14_bb_dagger_refuted.
 
-Theorem C14_xir_target_refuted :
-  exists p, ptarget p <> None /\ bb_roundtrip p = Ok p /\ exists p', xir_roundtrip p = Ok p' /\ ptarget p' = None.
-Proof. exact xir_target_refuted_stmt. Qed.
-Print Assumptions C14_xir_target_refuted.
+
+
+
 
 Theorem C14_bb_options_refuted :
   exists p, pshots p <> None /\ xir_roundtrip p = Ok p /\ exists p', bb_roundtrip p = Ok p' /\ pshots p' = None /\ pcutoff p' = None.
@@ -119,8 +127,4 @@ Theorem C14_tdm_expr_refuted :
 Proof. exact tdm_expr_refuted_stmt. Qed.
 Print Assumptions C14_tdm_expr_refuted.
 
-Theorem C14_xir_tdm_dict_refuted :
-  exists p1 p2, xir_roundtrip p1 = Err ETypeError /\ xir_roundtrip p2 = Err ETypeError
-                /\ bb_roundtrip p1 = Ok p1 /\ bb_roundtrip p2 = Ok p2.
-Proof. exact (ex_intro _ w_tdm_numphi (ex_intro _ w_tdm_select xir_tdm_dict_refuted)). Qed.
-Print Assumptions C14_xir_tdm_dict_refuted.
+
